@@ -255,6 +255,8 @@ static void run_group(Context& cx, const Group& g, const Resolved& r, bool mine)
         for (auto& l : L)
             total *= l.size();
         uint64_t cap = thorough ? (1ull << 33) : (1ull << 20);
+        if (cx.opt.prop == "C17" && !thorough)
+            cap = 1ull << 17; // C17 runs 24 targets per case (scalar + batch): the dense sweeps belong to C01/C07
         cap *= (uint64_t)std::max<long>(1, cx.opt.sweep);
         if (nv <= 2 || bits == 8)
         {
@@ -283,7 +285,7 @@ static void run_group(Context& cx, const Group& g, const Resolved& r, bool mine)
         }
         if (t == F32 && !d.cheap_only)
         {
-            const uint64_t stride = thorough ? 1 : 257;
+            const uint64_t stride = thorough ? 1 : (cx.opt.prop == "C17" ? 2053 : 257);
             const uint64_t count = (1ull << 32) / stride;
             sweep_range(cx, d, t, r, thorough ? 0 : mix64(seed) % stride, stride, count, W, NW);
             if (mine)
@@ -331,9 +333,10 @@ int main(int argc, char** argv)
     {
         if (scalar)
         {
+            // C17 runs every case on the scalar overloads and on the batch kernels of all targets, judged by the same oracle
+            // (ipow, which has no exact oracle, additionally by bit-agreement): a divergence on either side shows
             fams.insert("scalar");
-            if (d->agree)
-                fams.insert(d->family);
+            fams.insert(d->family);
         }
         else
             fams.insert(d->family);
@@ -345,7 +348,7 @@ int main(int argc, char** argv)
         if (!scalar)
             return resolve(targets[d.family], d, t);
         Resolved r = resolve(targets["scalar"], d, t);
-        if (d.agree && !r.tg.empty() && d.family != "scalar")
+        if (!r.tg.empty() && d.family != "scalar")
         {
             Resolved b = resolve(targets[d.family], d, t);
             r.tg.insert(r.tg.end(), b.tg.begin(), b.tg.end());
@@ -365,7 +368,7 @@ int main(int argc, char** argv)
         const std::string fam = scalar ? "scalar" : d->family;
         if (!targets.count(fam))
             targets[fam] = load_targets(cx.opt, fam);
-        if (scalar && d->agree && d->family != "scalar")
+        if (scalar && d->family != "scalar")
         {
             // replay on the scalar targets and the batch targets together
             std::vector<Target> all = targets[fam];
